@@ -248,8 +248,50 @@ pub fn run(ctx: &mut Ctx) {
             ctx.count(&format!("solves-equal-within-rounding:{}", trn), 1);
         } else {
             // margin rule
-            let ma = solve::step_check(&orig, &cfg, &a, false).map(|s| s.min_margin).unwrap_or(0.0);
-            let mb = solve::step_check(&new, &cfg, &b, false).map(|s| s.min_margin).unwrap_or(0.0);
+            let sa = solve::step_check(&orig, &cfg, &a, false).ok();
+            let sb = solve::step_check(&new, &cfg, &b, false).ok();
+            let ma = sa.as_ref().map(|s| s.min_margin).unwrap_or(0.0);
+            let mb = sb.as_ref().map(|s| s.min_margin).unwrap_or(0.0);
+            // conditioning rule (non-exact transformations only): a returned average strategy is
+            // cumulative strategy / its mass; for an infoset its owner (almost) never reaches, the
+            // mass is tiny and rounding noise in the reach (1e-16 x payoff conditioning) is
+            // amplified by total weight / mass. Both runs were logged, so the amplification is
+            // measured per infoset and the tolerance widened by exactly that factor.
+            if let (false, true, Some(sa), Some(sb)) = (ap.exact, ma.min(mb) >= 1e-9, sa.as_ref(), sb.as_ref()) {
+                let payoff_cond = nscale / (scale * ap.mul.abs()).max(1e-300);
+                let cond_of = |prep: &Prepared, st: &crate::spec::Stats| -> Profile {
+                    [0, 1].map(|p| {
+                        prep.flat.info_actions[p]
+                            .iter()
+                            .enumerate()
+                            .map(|(i, acts)| vec![prep.align.info_rev[p][i].and_then(|di| st.avg_cond[p].get(di).copied()).unwrap_or(1.0); acts.len()])
+                            .collect()
+                    })
+                };
+                let ca = map_profile(&orig, &new, &cond_of(&orig, sa), tr);
+                let cb = cond_of(&new, sb);
+                if let Some(ca) = ca {
+                    let mut ok = bound_diff <= 1e-9 * nscale.max(want_bounds[0].abs()).max(want_bounds[1].abs());
+                    let mut skipped = 0u64;
+                    for p in 0..2 {
+                        for (i, (x, y)) in mapped[p].iter().zip(b.profile[p].iter()).enumerate() {
+                            let tol = solve::avg_tol(ca[p][i][0].max(cb[p][i][0]), payoff_cond, ma.min(mb));
+                            if tol > 1e-3 {
+                                skipped += 1;
+                            }
+                            if x.iter().zip(y.iter()).any(|(u, v)| !((u - v).abs() <= tol)) {
+                                ok = false;
+                            }
+                        }
+                    }
+                    if ok {
+                        ctx.count(&format!("solves-equal-within-conditioning-aware-tolerance:{}", trn), 1);
+                        ctx.count("ill-conditioned-infosets-not-compared", skipped);
+                        ctx.ok(mix(mix(tree.structural_hash() ^ crate::rng::hash_str(&cfg.describe())) ^ crate::rng::hash_str(&trn)), orig.flat.num_decision_infosets() > 0);
+                        return;
+                    }
+                }
+            }
             if !ap.exact && ma.min(mb) < 1e-9 {
                 ctx.inconclusive("outputs-differ-but-a-trace-passed-within-1e-9-of-a-regret-matching-discontinuity");
                 return;
